@@ -426,6 +426,9 @@ func checkExec(sc *Scenario, ex *Exec) []Violation {
 	if ex.W.S.Panic != nil {
 		vs = append(vs, panicViolation(ex.W.S.Panic, ex.W.S.PanicStack))
 	}
+	if ex.W.S.LockHazard != "" {
+		vs = append(vs, Violation{Property: "*", Rule: "deadlock", Norm: "recursive-read-lock", Msg: ex.W.S.LockHazard})
+	}
 	if sc.Check != nil {
 		vs = append(vs, sc.Check(ex.W, ex)...)
 	}
